@@ -327,7 +327,7 @@ func (e *Exec) execLoop(h *ssa.BasicBlock, loop map[*ssa.BasicBlock]bool, pre *S
 	}
 	// 1. invariants hold on entry
 	for i, c := range invs {
-		g := e.evalClause(c, pre, e.entry, nil)
+		g := e.evalClause(c, pre, e.oldState(), nil)
 		e.addObl(pre, fmt.Sprintf("%s/loop#%d/inv#%d/entry", e.funcKey, ord, i+1), "invariant-entry", g, h.Instrs[0].Pos(), c.Text)
 	}
 	// 2. dry run to collect the modified set
@@ -379,32 +379,98 @@ func (e *Exec) execLoop(h *ssa.BasicBlock, loop map[*ssa.BasicBlock]bool, pre *S
 		hk = append(hk, k)
 	}
 	sort.Strings(hk)
+	freshSyms := map[*Node]bool{}
+	for _, k := range lk {
+		if v, ok := head.locals[k]; ok {
+			for _, n := range leavesOf(v) {
+				freshSyms[n] = true
+			}
+		}
+	}
+	full := map[string]*Node{}
 	for _, k := range hk {
 		if strings.HasPrefix(k, "ghostvar:") {
 			name := strings.TrimPrefix(k, "ghostvar:")
 			if gv, ok := head.ghost[name]; ok {
-				head.ghost[name] = mapLeaves(gv, func(n *Node) *Node { return TS.Fresh("loop_g_"+name, n.Sort) })
+				head.ghost[name] = mapLeaves(gv, func(n *Node) *Node { f := TS.Fresh("loop_g_"+name, n.Sort); freshSyms[f] = true; return f })
 			}
 			continue
 		}
-		head.heaps[k] = TS.Fresh("loopheap_"+k, e.heapSorts[k])
+		f := TS.Fresh("loopheap_"+k, e.heapSorts[k])
+		freshSyms[f] = true
+		full[k] = f
+		head.heaps[k] = f
+	}
+	freshSyms[nb] = true
+	// second dry run from the havocked state: which references does one iteration write?
+	savedW2, savedWL2, savedR, savedWh := e.written, e.writtenLocals, e.writtenRefs, e.writtenWhole
+	e.written, e.writtenLocals = map[string]bool{}, map[interface{}]bool{}
+	e.writtenRefs, e.writtenWhole = map[string][]*Node{}, map[string]bool{}
+	e.quiet++
+	func() {
+		dry := head.clone()
+		savedRegs := e.regs
+		e.regs = map[ssa.Value]Value{}
+		for k, v := range savedRegs {
+			e.regs[k] = v
+		}
+		e.execRegion(loop, h, dry, true)
+		e.regs = savedRegs
+	}()
+	e.quiet--
+	refs2, whole2 := e.writtenRefs, e.writtenWhole
+	e.written, e.writtenLocals, e.writtenRefs, e.writtenWhole = savedW2, savedWL2, savedR, savedWh
+	for _, k := range hk {
+		if full[k] == nil || whole2[k] {
+			if e.writtenWhole != nil {
+				e.writtenWhole[k] = true
+			}
+			continue
+		}
+		stable := true
+		for _, r := range refs2[k] {
+			if mentions(r, freshSyms) {
+				stable = false
+			}
+		}
+		if !stable {
+			if e.writtenWhole != nil {
+				e.writtenWhole[k] = true
+			}
+			continue
+		}
+		// only these references change: keep everything else
+		hp := e.heap(pre, k, e.heapSorts[k])
+		nh := hp
+		seen := map[*Node]bool{}
+		for _, r := range refs2[k] {
+			if seen[r] {
+				continue
+			}
+			seen[r] = true
+			nh = Store(nh, r, Select(full[k], r))
+		}
+		head.heaps[k] = nh
+		if e.writtenRefs != nil {
+			e.writtenRefs[k] = append(e.writtenRefs[k], refs2[k]...)
+		}
 	}
 	for _, c := range invs {
-		head.assume(e.evalClause(c, head, e.entry, nil))
+		head.assume(e.evalClause(c, head, e.oldState(), nil))
 	}
 	var dec0 *Node
 	if dec != nil {
-		dec0 = e.evalClause(dec, head, e.entry, nil)
+		dec0 = e.evalClause(dec, head, e.oldState(), nil)
 	}
 	// 4. body
 	exits, backs := e.execRegion(loop, h, head, true)
 	for _, bs := range backs {
 		for i, c := range invs {
-			g := e.evalClause(c, bs, e.entry, nil)
+			g := e.evalClause(c, bs, e.oldState(), nil)
 			e.addObl(bs, fmt.Sprintf("%s/loop#%d/inv#%d/preserved", e.funcKey, ord, i+1), "invariant-preserved", g, h.Instrs[0].Pos(), c.Text)
 		}
 		if dec != nil {
-			d1 := e.evalClause(dec, bs, e.entry, nil)
+			d1 := e.evalClause(dec, bs, e.oldState(), nil)
 			g := And(App("<", "Bool", d1, dec0), App(">=", "Bool", dec0, IntLit(0)))
 			e.addObl(bs, fmt.Sprintf("%s/loop#%d/decreases", e.funcKey, ord), "decreases", g, h.Instrs[0].Pos(), dec.Text)
 		}
@@ -893,7 +959,7 @@ func (e *Exec) convert(s *State, v Value, from, to types.Type) Value {
 		name := heapNameArr(types.Typ[types.Uint8], "")
 		bs := e.mode.intSort(types.Typ[types.Uint8])
 		h := e.heap(s, name, arraySort(RefSort, arraySort(e.mode.idxSort(), bs)))
-		e.setHeap(s, name, Store(h, r, e.strChars(str)))
+		e.setHeap(s, name, Store(h, r, e.strChars(str)), r)
 		l := e.strLen(str)
 		return &SliceV{Ref: r, Off: e.idx(0), Len: l, Cap: l}
 	case isByteSlice(from) && isString(to):
@@ -1078,7 +1144,7 @@ func (e *Exec) makeSlice(s *State, x *ssa.MakeSlice) Value {
 		name := heapNameArr(et, li.Path)
 		asort := arraySort(e.mode.idxSort(), li.Sort)
 		h := e.heap(s, name, arraySort(RefSort, asort))
-		e.setHeap(s, name, Store(h, r, zeroOfSort(asort)))
+		e.setHeap(s, name, Store(h, r, zeroOfSort(asort)), r)
 	}
 	return &SliceV{Ref: r, Off: e.idx(0), Len: l, Cap: c}
 }
@@ -1136,4 +1202,34 @@ func (e *Exec) phi(s *State, x *ssa.Phi) Value {
 		e.unsupported("phi without incoming edges")
 	}
 	return res
+}
+
+// oldState: what old(...) denotes — the function entry, or for a region contract the state right
+// after the Lock (guarded state havocked, invariant assumed).
+func (e *Exec) oldState() *State {
+	if e.fc != nil && e.fc.Region && e.lastRegionStart != nil {
+		return e.lastRegionStart
+	}
+	return e.entry
+}
+
+func mentions(n *Node, syms map[*Node]bool) bool {
+	seen := map[int]bool{}
+	var rec func(x *Node) bool
+	rec = func(x *Node) bool {
+		if seen[x.id] {
+			return false
+		}
+		seen[x.id] = true
+		if syms[x] {
+			return true
+		}
+		for _, a := range x.Args {
+			if rec(a) {
+				return true
+			}
+		}
+		return false
+	}
+	return rec(n)
 }
